@@ -69,6 +69,12 @@ def build_harness(race=False):
     shutil.copyfile(os.path.join(REPO, "go.sum"), os.path.join(h, "go.sum"))
     out = os.path.join(CACHE, "harness_race" if race else "harness")
     cmd = ["go", "build", "-tags", "verif"] + (["-race"] if race else []) + ["-o", out, "."]
+    if REPO != "/repo":
+        # evaluation of a scratch tree (bin/mutant-eval): same module file with the replace redirected
+        alt = os.path.join(CACHE, "alt.mod")
+        open(alt, "w").write(open(os.path.join(h, "go.mod")).read().replace("=> /repo", "=> " + REPO))
+        shutil.copyfile(os.path.join(REPO, "go.sum"), os.path.join(CACHE, "alt.sum"))
+        cmd[2:2] = ["-modfile=" + alt]
     sh(cmd, cwd=h, env=GOENV, timeout=900)
     return out
 
@@ -79,10 +85,19 @@ def build_harness(race=False):
 MRE = re.compile(r"\(\s*(\d+),\s*\(\s*(\d+),\s*(\d+),\s*(\d+)\)\)")
 
 
+def big_stack():
+    """coqc's parser recurses on the list literals of a case file: lift the stack limit for it"""
+    import resource
+    try:
+        resource.setrlimit(resource.RLIMIT_STACK, (resource.RLIM_INFINITY, resource.RLIM_INFINITY))
+    except (ValueError, OSError):
+        pass
+
+
 def eval_shard(path):
     """coqc one shard; returns (list of (case, step, tag, detail), error text or None)"""
     p = subprocess.run(["timeout", "1500", "coqc", "-Q", COQ, "ColumnV", path], cwd=os.path.dirname(path),
-                       stdout=subprocess.PIPE, stderr=subprocess.STDOUT, text=True)
+                       stdout=subprocess.PIPE, stderr=subprocess.STDOUT, text=True, preexec_fn=big_stack)
     if p.returncode != 0:
         return [], f"coqc failed on {path}:\n{p.stdout[-3000:]}"
     m = re.search(r"M\s*=\s*(.*?)\n\s*:\s*list", p.stdout, re.S)
